@@ -373,11 +373,45 @@ def _order_insensitive_loop(loop: ast.For, keyed_ok: bool = False):
             txt = norm(t)
             if try_fold(n.value, default=NotImplemented) is not NotImplemented:
                 continue  # constant
+            if isinstance(t, ast.Name) and _iteration_local(loop, t.id):
+                continue  # a temporary of one iteration: assigned before it is read, not read after the loop
             if keyed_ok and isinstance(t, ast.Subscript) and elem_names & {x.id for x in ast.walk(t.slice) if isinstance(x, ast.Name)}:
                 continue  # a table keyed by the element: which element comes first does not matter for distinct elements
             if not _conflict_guarded(n, txt, loop):
                 return False, f"'{norm(n)[:60]}' stores an element-dependent value without a guard that raises on a second, different value"
     return True, ""
+
+
+def _iteration_local(loop, name: str) -> bool:
+    """`name` is (re)assigned in every iteration before anything in that iteration reads it, and nothing after the loop reads
+    it: its value never carries from one element to the next."""
+    from ..util import pos as _pos
+
+    fn = getattr(loop, "_func", None)
+    fnode = fn.node if fn is not None else None
+    if fnode is None:
+        return False
+    inside = {id(x) for x in ast.walk(loop)}
+    for x in ast.walk(fnode):
+        if isinstance(x, ast.Name) and x.id == name and isinstance(x.ctx, ast.Load) and id(x) not in inside:
+            # read outside the loop: allowed only before the loop starts (an earlier, unrelated use)
+            if _pos(x) > _pos(loop):
+                return False
+    occ = sorted([x for s_ in loop.body for x in ast.walk(s_) if isinstance(x, ast.Name) and x.id == name], key=_pos)
+    if not occ:
+        return False
+    first = occ[0]
+    if not isinstance(first.ctx, ast.Store):
+        # `v = f(...) if (v := g(...)) ...`: the walrus store may come textually after the target; accept a NamedExpr store at the
+        # same statement
+        return False
+    # the first store must be unconditional within the iteration: directly in the loop body (not under an if / try / inner loop)
+    stmt = first
+    while getattr(stmt, "_parent", None) is not None and not any(stmt is s_ for s_ in loop.body):
+        stmt = stmt._parent
+        if isinstance(stmt, ast.If | ast.Try | ast.For | ast.While | ast.With) and stmt is not loop:
+            return False
+    return any(stmt is s_ for s_ in loop.body)
 
 
 def _block_raises(stmt):
